@@ -205,7 +205,7 @@ def run(ctx):
                 if fails:
                     # evaluate the model on every diverging history (capped), find the first divergent step of each and
                     # classify it; the tie counts as broken only if a divergence is not attributed to an open known finding
-                    cap = 120
+                    cap = 600
                     bad = [cases[i] for i in fails[:cap]]
                     bad_texts = [run_harness.texts[i] if i < len(run_harness.texts) else "" for i in fails[:cap]]
                     mo, _ = vlib.coq_eval_terms("c09", IMPORTS + "\nLocal Open Scope N_scope.", [f"{fn} ({q})" for q, _ in bad])
